@@ -213,10 +213,10 @@ CasePicked(cs) == cs[1] \in {"d2l", "d2r"} =>
                     /\ ((CaseHash(cs) \div D2Base) + Seed) % D2Stride = 0
 (* the small families (unary, casts, the conversion contexts, ++/--) are always enumerated completely;
    depth 2 is thinned by whole cases already, so its value choices are thinned 8 times less *)
-VStride == IF fam = "vla" THEN 1
+VStride == IF fam = "vla" THEN (IF Stride < 48 THEN 1 ELSE Stride \div 48)
            ELSE IF fam = "fconv" THEN (IF op \in {"cast", "neg", "mixed"} THEN (IF Stride < 32 THEN 1 ELSE Stride \div 32)
-                                       ELSE IF op \in {"finit", "chain", "cond"} THEN (IF Stride < 16 THEN 1 ELSE Stride \div 16)
-                                       ELSE (IF Stride < 8 THEN 1 ELSE Stride \div 8))
+                                       ELSE IF op \in {"finit", "chain", "cond"} THEN (IF Stride < 8 THEN 1 ELSE Stride \div 8)
+                                       ELSE (IF Stride < 4 THEN 1 ELSE Stride \div 4))
            ELSE IF fam \in {"un", "cast", "init", "arg", "ret", "assign", "test", "incdec", "aincdec", "cc", "wrap0", "fcmp"} THEN 1
            ELSE IF fam = "asgv" THEN (IF op # "chain" \/ Stride < 8 THEN 1 ELSE 4)
            ELSE IF fam \in {"opasg", "aopasg"} THEN (IF Stride < 16 THEN 1 ELSE Stride \div 16)
@@ -226,7 +226,7 @@ VStride == IF fam = "vla" THEN 1
            ELSE IF fam \in {"d2l", "d2r"} /\ Stride >= 8 THEN Stride \div 8 ELSE Stride
 Pick(ii, jj, kk) == LET h == hb + ii * 31 + jj * 37 + kk * 41 IN
                     IF VStride = 1 /\ fam \notin {"bin", "cond", "opasg", "d2l", "d2r", "fconv"} THEN TRUE
-                    ELSE IF fam \in {"ptr", "ccinit", "ccarg", "ccret", "ccassign", "aopasg", "case", "enum"} THEN (h + Seed) % VStride = 0
+                    ELSE IF fam \in {"ptr", "ccinit", "ccarg", "ccret", "ccassign", "aopasg", "case", "enum", "vla"} THEN (h + Seed) % VStride = 0
                     ELSE IF fam = "asgv" THEN (h + Seed) % VStride = 0
                     ELSE IF fam = "fconv" THEN (IF op = "finit" THEN (h + Seed) % VStride = 0
                                                 ELSE h % 8 = 0 /\ ((h \div 8) + Seed) % VStride = 0)     \* D: value choices with hash % 8 = 0
